@@ -478,7 +478,7 @@ func between(a, b, n int) []int {
 // quiet runs the newcomer scenario: a new player takes empty seat E strictly
 // between dealer and big blind and sits in; everybody else stays put; Next()
 // is called `hands` times.
-func (r *run) quiet(E int, hands int, pid int32) {
+func (r *run) quiet(E int, hands int, pid int32, dupJoin bool) {
 	n := r.cfg.Max
 	d, bb := seatID(r.m.Dealer()), seatID(r.m.BigBlind())
 	if d < 0 || bb < 0 || E < 0 || E >= n || r.mod.occ[E] != 0 || r.mod.res[E] || !inInts(between(d, bb, n), E) {
@@ -501,6 +501,15 @@ func (r *run) quiet(E int, hands int, pid int32) {
 		return
 	}
 	r.seqOp(opSpec{Kind: "sit", Seat: E})
+	if dupJoin {
+		// the transport delivers the newcomer's join a second time, after he
+		// has sat in: it is refused (the seat is taken) and must leave nothing behind
+		r.res.Count("fault.duplicate-join-delivered", 1)
+		r.seqOp(opSpec{Kind: "join", Seat: E, PID: pid + 100000})
+		if r.dead {
+			return
+		}
+	}
 	passed := false
 	for h := 0; h < hands && !r.dead; h++ {
 		dPrev := seatID(r.m.Dealer())
@@ -645,9 +654,13 @@ func (r *run) genSeq(rng *sim.RNG) {
 				E := cand[rng.Intn(len(cand))]
 				hands := 1 + rng.Intn(n+2)
 				p := nextPID()
-				r.record(sim.Step{Actor: "table", Op: "quiet", Args: []int64{int64(E), int64(hands), int64(p)}, Fault: "quiet-window"})
+				dup := int64(0)
+				if rng.Chance(0.3) {
+					dup = 1
+				}
+				r.record(sim.Step{Actor: "table", Op: "quiet", Args: []int64{int64(E), int64(hands), int64(p), dup}, Fault: "quiet-window"})
 				r.res.Count("fault.quiet-window", 1)
-				r.quiet(E, hands, p)
+				r.quiet(E, hands, p, dup == 1)
 				continue
 			}
 		}
@@ -1071,7 +1084,7 @@ func (w World) Replay(c *sim.Case, o sim.Options) *sim.Result {
 		switch {
 		case st.Op == "quiet":
 			if len(st.Args) >= 3 {
-				r.quiet(int(st.Args[0]), int(st.Args[1]), int32(st.Args[2]))
+				r.quiet(int(st.Args[0]), int(st.Args[1]), int32(st.Args[2]), len(st.Args) > 3 && st.Args[3] == 1)
 			}
 		case st.Op == "go":
 			if cfg.Mode == "conc" && len(st.Args) >= 3 && len(st.SArgs) == 1 && r.findG(int(st.Args[0])) == nil {
